@@ -306,7 +306,13 @@ class CtlRun(object):
         outstanding = sum(1 for x in self.cmds if x.observed and not x.done)
         if outstanding >= 4:
             sim.probe('queue-depth>=4')
-        if kind == 'plain':
+        if kind == 'plain' and self.prop in ('C01', 'C03') and ch.chance(1, 12, 'rawbytes'):
+            # a command handed over as bytes (the API accepts them) that is not ASCII
+            c.text = text = text + '\xe9'
+            c.wire = ('exact', text)
+            sim.probe('command-as-non-ascii-bytes')
+            d = self.proto.queue_command(text.encode('latin-1'))
+        elif kind == 'plain':
             d = self.proto.queue_command(text)
         elif kind == 'rawcb':
             d = self.proto.queue_command(text, lambda line, c=c: self.on_line(c, line))
